@@ -66,6 +66,10 @@ CHECKS["C20"] = dict(engine="reporters(+libFuzzer)", technique=PBT + "generated 
     text="Exploration: 4.2k batches per quick run; thorough adds 112k batches and a 5 min libFuzzer campaign through the real UDP path.",
     note="The reference encoder is validated against the real single-span datagrams on every single-record case; sizes within +-10 bytes of the limit are undecided.")
 
+CHECKS["C15"] = dict(engine="macrogen+macro_case", technique=PBT + "GENERATED RUST SOURCE: twin functions (annotated / plain, identical bodies) from a signature+body grammar compiled against /repo/fastrace-macro, then differential execution with generated arguments and tracing contexts; oracle: equal return value / panic payload / side-effect log / &mut arguments, exactly one span per call (per poll with enter_on_poll) with name from the plain twin's func_path!(), properties equal to the same format strings evaluated by the harness, parent = caller's local parent, nested traced calls as a tree",
+    text="Exploration: one batch of 150 generated function pairs (11 signature shapes) and 42k generated calls per quick run; thorough: 700 pairs and 560k calls.",
+    note="Shapes the grammar does not produce (const generics, unsafe, extern, impl Trait returns) are not covered; async-trait methods are generated with name/short_name only; argument drop order is not compared (unclaimed). Compile-time diagnostics stay with the repository's ui tests.")
+
 NOT_YET = "check not built yet (work in progress; see DESIGN.md section 4 for the planned check)"
 
 
@@ -100,6 +104,7 @@ def main():
             {"name": "core", "path": "/verif/engines/core", "serves_properties": [p for p in ALL if p in CHECKS and CHECKS[p]["engine"].startswith("core")],
              "kind_free_text": "proptest-driven interpreter of generated tracing programs with a lockstep reference model; built plain (public API, real flush()), hooked (--cfg fastrace_verif: baton scheduler over hook sites) and without the enable feature"},
             {"name": "reporters", "path": "/verif/engines/reporters", "serves_properties": ["C19", "C20"], "kind_free_text": "proptest worker + cargo-fuzz target /verif/fuzz/fuzz_targets/c20_plan.rs; loopback UDP/HTTP harness, independent decoders and reference encoder"},
+            {"name": "macrogen+macro_case", "path": "/verif/engines/macrogen", "serves_properties": ["C15"], "kind_free_text": "fr-macrogen renders generated FnSpecs into /verif/engines/macro_case/src/generated.rs (git-ignored); macro_case is compiled against /repo and runs the differential harness"},
             {"name": "codec", "path": "/verif/engines/codec", "serves_properties": ["C12"], "kind_free_text": "proptest worker + cargo-fuzz target /verif/fuzz/fuzz_targets/c12_text.rs sharing one oracle library"},
         ],
         "checks": checks,
